@@ -811,6 +811,26 @@ Definition entry_directs (t : transport) (c : scfg) (es : list bytes) : list byt
 Definition entry_logs (t : transport) (c : scfg) (es : list bytes) : log :=
   flat_map (fun e => match entry_result reg h t c e with Some cr => c_log cr | None => [] end) es.
 
+(* exactly one response per entry that is a call or invalid, none per notification: a count, entry by entry *)
+Definition answered (e : bytes) : bool := match classify_entry e with ENotif => false | _ => true end.
+Lemma answered_false_iff e : answered e = false <-> classify_entry e = ENotif.
+Proof. unfold answered. destruct (classify_entry e); split; intro H; try reflexivity; discriminate H. Qed.
+Lemma entry_response_none_iff t c e : entry_response t c e = None <-> classify_entry e = ENotif.
+Proof.
+  unfold entry_response, entry_result. destruct (classify_entry e); split; intro H; try reflexivity; discriminate H.
+Qed.
+Lemma c02_response_count t c es :
+  length (entry_responses t c es) = length (filter answered es) /\
+  (forall es1 e es2, es = es1 ++ e :: es2 ->
+     entry_responses t c es = entry_responses t c es1 ++ opt_list (entry_response t c e) ++ entry_responses t c es2).
+Proof.
+  split.
+  - induction es as [|e es IH]; [reflexivity|]. unfold entry_responses in *. cbn [flat_map filter].
+    rewrite app_length, IH. unfold answered, entry_response, entry_result.
+    destruct (classify_entry e); reflexivity.
+  - intros es1 e es2 ->. unfold entry_responses. rewrite flat_map_app. cbn [flat_map]. reflexivity.
+Qed.
+
 (* ---------- the interpreted gate lists, evaluated on the lists generated from the source NOW ----------
    `gate_reference` / `batch_tail` are the fixed readings the theorems of C02 are proved about; the two lemmas below
    evaluate the interpreters of Model/Server.v on Gen/BatchGateGen.{batch_gate, batch_epilogue}.  A regenerated list
